@@ -20,6 +20,20 @@ def gen_examples(rng, exotic=None):
         # digit-like and non-ASCII decimal digits, punctuation pairs
         ex += [rng.choice(['²', '³', '½', '٣', '５', 'a²', '1²', '^-', '-^', '^', '-', ']-', '\\', 'a\\b', 'é1', 'Ⅷ', 'x_y',
                            'a.b', 'a-b', ' a', 'a ', '\ta', 'a\n', '\n', 'a\nb']) for _ in range(rng.randint(1, 3))]
+    if rng.random() < 0.12:
+        # a wide group: > max_strings_in_group distinct values in one fragment, the late ones with new characters
+        ex = list(ex) if rng.random() < 0.3 else []
+        kind = rng.choice(['word', 'punc', 'mixed'])
+        n = rng.randint(10, 22)
+        if kind == 'word':
+            ex += [''.join(rng.choice('abcdefgh') for _ in range(rng.randint(2, 4))) for _ in range(n)]
+            ex += [rng.choice(['x9z', 'Q7', 'aB', 'zz1', 'É', 'a_'])for _ in range(rng.randint(1, 3))]
+        elif kind == 'punc':
+            ex += ['a' + ''.join(rng.choice('.-') for _ in range(rng.randint(1, 3))) + 'b' + str(i) for i in range(n)]
+            ex += [rng.choice(['a/b1', 'a:b2', 'a..-/b3', 'a b4'])for _ in range(rng.randint(1, 2))]
+        else:
+            ex += ['%s-%d' % (rng.choice('ABCD') * rng.randint(1, 2), rng.randint(0, 999)) for _ in range(n)]
+            ex += [rng.choice(['ab-12', 'A1-7', 'Z-x', 'AA-٣'])for _ in range(rng.randint(1, 2))]
     return ex
 
 
@@ -37,6 +51,8 @@ def gen_opts(rng):
         o['extra_letters'] = rng.choice(['_', '-', '.', '_-', '_.', '-.', '_.-'])
     if rng.random() < 0.6:
         o['dialect'] = rng.choice(['perl', 'portable', 'grep'])
+    if rng.random() < 0.12:
+        o['full_escape'] = True
     return o
 
 
@@ -126,8 +142,8 @@ def model_extract_op(examples, opts, form='list'):
 
 def nosampling(examples, opts, size):
     """True when extraction takes the batch path (the one the Lean model covers)"""
-    if any(s is not None and '\x00' in s for s in examples):
-        return False
+    if any(s is not None and '\x00' in s for s in examples) or opts.get('full_escape'):
+        return False        # (full_escape rendering is not modelled: oracle only)
     if not size:
         return True
     return len(set(kept_examples(examples, opts))) <= size['do_all']
@@ -145,3 +161,17 @@ def canon_rex(outs):
 RX_LEMMAS = ['TddaVerif.Props.C03.Lemmas.' + t for t in [
     'batch_extract_sound', 'extract_sound', 'batch_pattern_has_witness', 'batch_count_le', 'extract_subset_batch',
     'extract_empty']]
+
+
+def fresh_results(histories, hashseed=0):
+    """results of the last case of each history, each in a fresh process state (harness/rx_fresh.py)"""
+    import subprocess
+    import sys
+    import json as _json
+    import os as _os
+    env = dict(_os.environ, PYTHONHASHSEED=str(hashseed))
+    p = subprocess.run([sys.executable, _os.path.join(_os.path.dirname(_os.path.abspath(__file__)), 'rx_fresh.py')],
+                       input=_json.dumps({'histories': histories}), capture_output=True, text=True, env=env, timeout=1800)
+    if p.returncode != 0:
+        raise RuntimeError('rx_fresh failed: ' + p.stderr[-400:])
+    return _json.loads(p.stdout)
